@@ -18,7 +18,7 @@ def run(ctx):
         nextra = 400
     else:
         seconds = "<<CanaryGet, CanaryPost, CanaryLf>>"
-        nextra = 12000
+        nextra = 30000
     extra = []
     for _ in range(nextra):
         k = 2 if rnd.random() < 0.7 else 3
@@ -39,4 +39,4 @@ def run(ctx):
                 "exhaustive over the token menu (every first message x canary follow-ups); extra random tuples of first messages are seeded")
     ctx.assumptions = ["token menu of ReqFramingGen.tla (%s follow-ups, %d seeded extra tuples)" % (seconds, nextra),
                        "concretisation variants (header-name case, OWS, payload, chunk-size case) and segmentations are sampled by seed",
-                       "configurations sampled by seed: default + %d random per pipeline" % (1 if ctx.quick else 3)]
+                       "configurations sampled by seed: default + %d random per pipeline" % (1 if ctx.quick else 5)]
